@@ -46,7 +46,7 @@ MANIFEST = dict(
        "(theorems quantify over every schedule; uniform_sweep_visits_all, linear_stop_weak, primal_dual_gap of the design are not proved; 'same primal objective as the kernel solver' is a trainer-level oracle); "
        "(d) no theorem about WHICH working set is selected beyond validity (the second-order rule incl. the shifted arguments of maximumGainQuadratic2D is tied bit for bit) and none about convergence (that accuracy IS reached); "
        "(e) the time limit of QpSolver::solve is not modelled. linear_step_gain_nonneg is partial (|x_i|^2+reg>0). The driver re-tabulates the state vectors between model operations and between passes of the solve loop "
-       "(identity on the valid index ranges; the loop itself is the model's solveBody). Configuration invariance is a theorem about exact arithmetic over a kernel matrix given as a function (C09 owns the cache); PSD of Q is proved for Gram "
+       "(identity on the valid index ranges; the loop it runs is the model's solveLoopWith/solveLoopXWith, proved equal to solveLoop/solveLoopX for the identity re-tabulation). Configuration invariance is a theorem about exact arithmetic over a kernel matrix given as a function (C09 owns the cache); PSD of Q is proved for Gram "
        "matrices of explicit features, a hypothesis otherwise; floating-point effects are covered by the correspondence only. For the binary machine (and each one-versus-all machine) with offset a constant shift of the decision values "
        "between configurations is tolerated (C07 owns bias_in_kkt_interval). Findings: F-C16-L1 (QpMcLinear{CS,ADM,ATM} two-variable step: gain formula / ATM gradient update; validated patch proposed), F-C16-4 (QpMcSimplexDecomp::shrink case 2 vs the varsum snapping: the solve loop "
        "livelocks, with offset BiasSolverSimplex then stops at a non-KKT point; root cause found this round, validated patches F4c + F4b proposed), F-C16-2 (multi-class offset solver is trajectory dependent; no small patch) "
